@@ -95,6 +95,19 @@ CHECKS = {
              "(700 quick / 12 000 thorough of 94 249). Patterns outside the 17 are not covered.",
         technique="TLA+ model of gitignore semantics (TLC) + differential replay against git + trace validation (GitTrace.tla)",
         design="§6 C18"),
+    "C17": dict(
+        level="model_checking",
+        text="spec/Resolve.tla models FileResolver.resolve as a machine (ArgFile / ArgDir / ArgGlob with seen/result, then Sort) over a "
+             "13-entry universe (sizes at and over the limit, default- and user-excluded directories, a .flowmarkignore rule, symlinks to a "
+             "file inside / outside / dangling / to a directory) x 64 settings x every argument list up to the bound, and states the "
+             "property declaratively as Must <= result <= Must u May; TLC checks Complete, SoundK (open findings carved out by trigger) and "
+             "OrderFree on every state. Every point is materialised on disk; FileResolver.resolve, the reversed argument list, a permuted "
+             "directory listing order and (a subset) `flowmark --list-files` are observed, and spec/ResolveTrace.tla decides soundness, "
+             "completeness, absolute/sorted/duplicate-free shape and order independence per observation.",
+        note="Trusted: one rich tree instead of all trees (filters are per-file), identification of listed paths with universe entries. "
+             "quick: argument lists <= 2, every second point; thorough: lists <= 3, all 120 576 points.",
+        technique="TLA+ model checking (TLC) of Resolve.tla + materialised replay + trace validation (ResolveTrace.tla)",
+        design="§6 C17"),
 }
 
 NOT_YET = "check not built yet in this phase (planned, see DESIGN.md §6)"
